@@ -64,7 +64,78 @@ var c13Kinds = []string{
 	"fail-prove-len", "fail-prove-zero", "fail-prove-polylen", "fail-verify-len", "fail-verify-shape", "fail-ipa-verify-shape", "fail-batchnorm-zero", "fail-read-short", "fail-decode-noncanonical", "fail-msm-len",
 }
 
-func (c13) Prepare(string) { env.Config(); env.Pool(); c13globals() }
+func (c13) Prepare(string) {
+	env.Pool()
+	c13early() // before the first library call of this process (the configuration load makes one)
+	env.Config()
+	c13globals()
+}
+
+// Early probes: light calls (no configuration, no library-made objects) executed on a fixed light
+// arena as the very first library calls of the worker process, their results remembered, and
+// executed again at the end of every history. A call of one kind that leaves something behind which
+// changes what a LATER call of ANOTHER kind returns (and keeps returning) is invisible to "same call,
+// two positions" comparisons inside one history; it is visible against the process-start result.
+var c13earlyCalls = []C13Call{
+	{Kind: "mapfield", A: 1, N: 5}, {Kind: "tobytes", N: 6}, {Kind: "decode-point", A: 1}, {Kind: "decode-uncompressed", A: 2},
+	{Kind: "decode-uncompressed", A: 3, Flag: true}, {Kind: "fr-setbytes", A: 1}, {Kind: "fr-setbytes-le", A: 2}, {Kind: "fr-misc", A: 4, B: 5},
+	{Kind: "fr-batchinvert", N: 9}, {Kind: "powers", A: 4, N: 9}, {Kind: "transcript", A: 1, B: 2, N: 3}, {Kind: "groupops", A: 1, B: 2, N: 3},
+	{Kind: "innerprod", A: 0, B: 1}, {Kind: "msm-bw", A: 3, N: 6, Flag: true}, {Kind: "msm-bs", A: 2, N: 5},
+}
+var c13lightKinds = map[string]bool{}
+var c13earlyArena *arena
+var c13earlyDigests []string
+
+func c13early() {
+	if c13earlyArena != nil {
+		return
+	}
+	for _, c := range c13earlyCalls {
+		c13lightKinds[c.Kind] = true
+	}
+	c13earlyArena = buildLightArena(0x11687)
+	for _, c := range c13earlyCalls {
+		d, _ := doCall(c13earlyArena, c)
+		c13earlyDigests = append(c13earlyDigests, d)
+	}
+}
+
+// buildLightArena builds caller-owned arguments WITHOUT any library call (limbs and bytes come from
+// the reference model): elements, scalars, polynomials, byte buffers, labels.
+func buildLightArena(seed uint64) *arena {
+	r := NewRng(seed, 0, "light arena")
+	_, poolP := env.Pool()
+	a := &arena{}
+	a.PolyBack = make([]fr.Element, (nPolys+1)*256)
+	for i := 0; i < nPolys; i++ {
+		f := a.PolyBack[i*256 : (i+1)*256]
+		copy(f, sparsePoly(r))
+		a.Polys = append(a.Polys, f)
+		a.Zs = append(a.Zs, uint8(r.Intn(256)))
+	}
+	for i := 0; i < nElems; i++ {
+		e := ElemFromRef(poolP[r.Intn(poolSize)], Repr(r.Intn(int(NumReprs))), r.Scalar())
+		a.Elems = append(a.Elems, &e)
+		a.ElemVal = append(a.ElemVal, ElemFromRef(poolP[r.Intn(poolSize)], Repr(r.Intn(int(NumReprs))), r.Scalar()))
+		a.Affine = append(a.Affine, AffineFromRef(poolP[r.Intn(poolSize)]))
+		enc := poolP[r.Intn(poolSize)].Encode()
+		a.Buf32 = append(a.Buf32, append([]byte{}, enc[:]...))
+		u := refmodel.EncodeUncompressed(poolP[r.Intn(poolSize)])
+		a.Buf64 = append(a.Buf64, append([]byte{}, u[:]...))
+	}
+	for i := 0; i < nScal; i++ {
+		a.Scalars = append(a.Scalars, FrFromBig(r.Scalar()))
+		e := FrFromBig(r.Scalar())
+		a.ScalPtr = append(a.ScalPtr, &e)
+	}
+	for i := 0; i < nBufs; i++ {
+		s := r.Scalar()
+		a.BufS = append(a.BufS, le32(s))
+		a.BufBig = append(a.BufBig, be32(s))
+		a.Labels = append(a.Labels, []byte(genLabel(r)+"L"))
+	}
+	return a
+}
 
 func (c13) Gen(seed uint64, run int, tier, variant string) interface{} {
 	r := NewRng(seed, run, "C13")
@@ -457,7 +528,11 @@ func (s *shortReader) Read(p []byte) (int, error) {
 // doCall executes a call on the shared arena and returns a digest of its outputs
 // plus whether it (as expected for fail-* kinds) returned an error.
 func doCall(a *arena, c C13Call) (out string, failed bool) {
-	cfg := env.Config()
+	var cfg *ipa.IPAConfig
+	if !c13lightKinds[c.Kind] || env.cfg != nil {
+		cfg = env.Config()
+	}
+	_ = cfg
 	pick := func(n, k int) int { return k % n }
 	switch c.Kind {
 	case "commit":
@@ -1111,6 +1186,11 @@ func (c13) Exec(plan interface{}) Result {
 		for k := range before {
 			if before[k] != after[k] {
 				return fail("history-dependent", "probe call %s returns a different result after the history than before it", c13probeCalls[k].Kind)
+			}
+		}
+		for k, c := range c13earlyCalls {
+			if d, _ := doCall(c13earlyArena, c); d != c13earlyDigests[k] {
+				return fail("history-dependent", "light probe %d (%s) returns a different result than it did as one of the first library calls of this process: some earlier call of another kind left state behind", k, c.Kind)
 			}
 		}
 		if len(p.Calls) > 0 {
